@@ -181,6 +181,8 @@ class Session:
     def prove(self, name, assumptions, claim, timeout_ms=None, tags=None, expect=None):
         """Query assumptions /\\ not claim. Returns QueryResult (holds iff unsat)."""
         cs = [_z(a) for a in assumptions] + [z3.Not(_z(claim))]
+        if z3.is_true(_z(claim)) or z3.is_false(_z(claim)):
+            tags = dict(tags or {}, concrete_claim=True)  # decided by concrete evaluation of the run (bookkeeping facts, finite tables)
         # stage A0: only the assumptions over the claim's own variables (sound: fewer assumptions)
         dtA = 0.0
         if not z3.is_false(cs[-1]) and not (tags or {}).get("exact_only") and len(cs) > 3:
